@@ -475,7 +475,12 @@ func (s *Server) handlePostTx(w http.ResponseWriter, r *http.Request) {
 		return
 	}
 
-	// TODO(fwd): Ensure halt lock is held by caller.
+	// Ensure halt lock is held by caller.
+	if lockID, _ := strconv.ParseInt(q.Get("lockID"), 10, 64); !db.HoldsHaltLock(lockID) {
+		Error(w, r, fmt.Errorf("halt lock not held: %q", q.Get("lockID")), http.StatusConflict)
+		return
+	}
+
 	// TODO(fwd): Prevent halt lock release during copy & apply.
 
 	// Wrap request body in a chunked reader.
